@@ -64,7 +64,9 @@ def generate(rng, tier):
         mat = L.material(rng)
         cases.append({"q": q, "sq": [float(v) for v in sq], "dr": dr, "mat": mat, "fn": i % 3, "lowq": bool((i // 3) % 2) if i >= 9 else bool(i % 2),
                       "cutoff": (dr[-1] + 1.0 if i < 9 else rng.choice([dr[1], dr[-1] * 0.6, dr[-1] + 1.0])), "ops": list(seq),
-                      "gq": rng.choice([None, None, (None, q[-1] + 0.37), (q[0] - 0.05, q[-1] + 2.0), (None, q[-1])]),
+                      "gq": rng.choice([None, None, (None, q[-1] + 0.37), (q[0] - 0.05, q[-1] + 2.0), (None, q[-1]),
+                                        # set on the instance after the merged data exist, cutting into them: the workflow steps act on the merged data as stored
+                                        (q[1] + 0.001, None), (None, q[-2]), (q[1], q[-2])]),
                       "desc": {"ops": " ".join(seq), "fn": SL.FNS[i % 3], "lowq": bool((i // 3) % 2) if i >= 9 else bool(i % 2), "n_ops": len(seq), "r0_is_0": r0 == 0.0}})
     return cases
 
